@@ -138,6 +138,63 @@ def lookup_files():
     return LK
 
 
+TWO = {}
+
+
+def two_reference_files():
+    """two reference-marker files (real marker stage, different
+    settings) made from two statistics files that hold equally many cells
+    of every cluster - every parent is a tie between the two"""
+    if TWO:
+        return TWO
+    import h5py
+    import json
+    import cell_type_mapper.diff_exp.markers as MK
+    root = os.path.join(sandbox_root(), 'two_refs')
+    shutil.rmtree(root, ignore_errors=True)
+    os.makedirs(os.path.join(root, 'scratch'))
+    saved = getattr(core.CUR, '_mp_epoch', 0)
+    refs = []
+    for tag, kw in (('a', dict(exact_penetrance=True)),
+                    ('b', dict(exact_penetrance=False, n_valid=1,
+                               gene_list=['g0', 'g1', 'g2', 'g3']))):
+        stats = os.path.join(root, f'stats_{tag}.h5')
+        tree, _ = RM.build_stats(stats, {lf: 3 for lf in RM.LEAVES})
+        out = os.path.join(root, f'reference_markers_{tag}.h5')
+        mpmodel.SCHED.reset(K=0)
+        with warnings.catch_warnings():
+            warnings.simplefilter('ignore')
+            MK.find_markers_for_all_taxonomy_pairs(
+                stats, tree, out, n_processors=1,
+                tmp_dir=os.path.join(root, 'scratch'), max_gb=1, **kw)
+        with h5py.File(out, 'a') as f:
+            f.create_dataset('metadata', data=json.dumps(
+                {'precomputed_path': stats}).encode('utf-8'))
+        refs.append(out)
+    if core.CUR is not None:
+        core.CUR._mp_epoch = saved
+    TWO.update(root=root, refs=refs)
+    return TWO
+
+
+def lookup_two_refs(K=0):
+    import cell_type_mapper.type_assignment.marker_cache_v2 as MC
+    two = two_reference_files()
+    mpmodel.SCHED.reset(K=K)
+    try:
+        with warnings.catch_warnings():
+            warnings.simplefilter('ignore')
+            out = MC.create_marker_gene_lookup_from_ref_list(
+                reference_marker_path_list=list(two['refs']),
+                query_gene_names=['q_only_gene'] + list(RM.GENES),
+                n_per_utility=1, n_per_utility_override=None,
+                n_processors=1, behemoth_cutoff=5000000,
+                tmp_dir=os.path.join(two['root'], 'scratch'))
+        return out, None
+    except Exception as e:
+        return None, e
+
+
 def _lookup(nproc, search, K=0):
     import cell_type_mapper.type_assignment.marker_cache_v2 as MC
     mpmodel.SCHED.reset(K=K)
